@@ -3,7 +3,7 @@
     replacement by their contracts), with a POSIX single-quote lexer as the reference consumer of @sh. *)
 From Coq Require Import List ZArith.
 From Coq Require Import Init.Byte.
-From JaqV Require Import Base.Bytes Std.Codec Proofs.CodecLaws Val.Val Fmts.Tabular Proofs.TabularLaws.
+From JaqV Require Import Base.Bytes Std.Codec Proofs.CodecLaws Val.Val Val.Utf8 Val.Err Val.Arith Std.Natives Proofs.StringLaws Fmts.Tabular Proofs.TabularLaws.
 Import ListNotations.
 
 (** @uri | @urid : every byte string (any bytes, also invalid UTF-8) is returned unchanged *)
@@ -45,3 +45,33 @@ Print Assumptions csv_row_reads_back.
 Theorem tsv_field_is_clean : forall s c, In c (Tabular.tsv_str s) -> (bz c <> 9 /\ bz c <> 10 /\ bz c <> 13 /\ bz c <> 0)%Z.
 Proof. exact TabularLaws.tsv_str_no_sep. Qed.
 Print Assumptions tsv_field_is_clean.
+
+(** explode | implode : every byte string - any Unicode, control characters, invalid UTF-8 - is returned unchanged
+    (characters as their code points, the bytes of invalid sequences as negative numbers) *)
+Theorem explode_implode : forall s, implode (explode s) = Some (Ok s).
+Proof. exact StringLaws.explode_implode. Qed.
+Print Assumptions explode_implode.
+
+(** a decoded character is a Unicode scalar value whose encoding is exactly the bytes that were read *)
+Theorem decode_encode_char : forall s c n, decode1 s = (Some c, n) -> is_scalar c = true /\ encode1 c = firstn n s /\ (1 <= n)%nat.
+Proof. exact StringLaws.decode1_encode1. Qed.
+Print Assumptions decode_encode_char.
+
+(** split($x) | join($x) : the pieces, joined by the separator, are the string - for every string and separator
+    (an empty separator splits into characters and invalid sequences) *)
+Theorem split_join : forall s sep, intercalate sep (split s sep) = s.
+Proof. exact StringLaws.split_join. Qed.
+Print Assumptions split_join.
+
+(** ascii_downcase / ascii_upcase never change a byte outside ASCII, and change nothing but letters of the other case *)
+Theorem ascii_case_keeps_non_ascii : forall s, Forall (fun b => (128 <= bz b)%Z) s ->
+  ascii_map lower s = s /\ ascii_map upper s = s.
+Proof. exact StringLaws.ascii_case_keeps_non_ascii. Qed.
+Print Assumptions ascii_case_keeps_non_ascii.
+
+Theorem ascii_case_bytewise : forall s,
+  length (ascii_map lower s) = length s /\ length (ascii_map upper s) = length s
+  /\ Forall2 (fun a b => b = a \/ (65 <= bz a <= 90 /\ bz b = bz a + 32)%Z) s (ascii_map lower s)
+  /\ Forall2 (fun a b => b = a \/ (97 <= bz a <= 122 /\ bz b = bz a - 32)%Z) s (ascii_map upper s).
+Proof. exact StringLaws.ascii_case_bytewise. Qed.
+Print Assumptions ascii_case_bytewise.
